@@ -36,6 +36,8 @@ fn app_strs(v: &Value) -> Vec<String> {
     strs(v).iter().map(|n| app_name(n)).collect()
 }
 
+const DECL_LEVELS: [log::LevelFilter; 5] = [log::LevelFilter::Info, log::LevelFilter::Error, log::LevelFilter::Trace, log::LevelFilter::Off, log::LevelFilter::Debug];
+
 fn builder(case: &Value, style: usize) -> (log4rs::config::runtime::ConfigBuilder, log4rs::config::Root) {
     // (a run of one declaration goes through the single-item method or through the bulk method with one item)
     let single = |len: usize, k: usize| len == 1 && (crate::util::mix(style) >> (9 + k)) & 1 == 0;
@@ -53,11 +55,12 @@ fn builder(case: &Value, style: usize) -> (log4rs::config::runtime::ConfigBuilde
         .iter()
         .enumerate()
         .map(|(li, l)| {
-            let mut lb = log4rs::config::Logger::builder();
+            // (a declaration is more than a name and references: level and additive flag vary with its position)
+            let mut lb = log4rs::config::Logger::builder().additive(li % 2 == 1);
             for mut run in runs(app_strs(&l["refs"]), style / 5 + li) {
                 lb = if single(run.len(), 1 + li) { lb.appender(run.pop().unwrap()) } else { lb.appenders(run) };
             }
-            lb.build(l["name"].as_str().unwrap(), log::LevelFilter::Info)
+            lb.build(l["name"].as_str().unwrap(), DECL_LEVELS[li % 5])
         })
         .collect();
     for mut run in runs(loggers, style / 5) {
@@ -131,6 +134,20 @@ fn check_case(ci: usize, case: &Value) -> Option<Value> {
     let want_l: Vec<Value> = case["ok_loggers"].as_array().unwrap().iter().map(|l| json!({"name": l["name"], "refs": app_strs(&l["refs"])})).collect();
     if got_l != want_l {
         return Some(json!({"what": "lossy loggers", "expected": case["ok_loggers"], "actual": got_l}));
+    }
+    // what survives is the declaration itself (the first one of its name), with only its dangling references gone:
+    // level and additive flag are as declared
+    {
+        let decls = case["loggers"].as_array().unwrap();
+        for l in cfg.loggers() {
+            if let Some(li) = decls.iter().position(|d| d["name"].as_str() == Some(l.name())) {
+                if l.level() != DECL_LEVELS[li % 5] || l.additive() != (li % 2 == 1) {
+                    return Some(json!({"what": "a kept logger is not the logger that was declared", "name": l.name(), "declared_at": li,
+                                       "declared": {"level": format!("{:?}", DECL_LEVELS[li % 5]), "additive": li % 2 == 1},
+                                       "kept": {"level": format!("{:?}", l.level()), "additive": l.additive()}}));
+                }
+            }
+        }
     }
     // the accepted configuration can be installed and logged through
     let names: Vec<String> = cfg.loggers().iter().map(|l| l.name().to_string()).collect();
